@@ -280,6 +280,10 @@ class Interp:
     def p_square(self, e, a):
         return emap(lambda x: self.o.mul(x, x), a)
 
+    def p_one_minus_square(self, e, a):
+        one = self.o.lift(1.0, e.outvars[0].aval.dtype)
+        return emap(lambda x: self.o.sub(one, self.o.mul(x, x)), a)
+
     def p_pow(self, e, a, b):
         return emap(lambda x, y: self.o.binary("pow", x, y), a, b)
 
